@@ -63,7 +63,7 @@ Definition mapping_eqb (a b : mapping) : bool :=
 
 (* ParseSourceMap mappings: (sections, status, kind, err, maps)
    kind 0 = nil result without message, 1 = "Bad mappings" message with err = [code; value; current],
-   2 = a source map with maps (canonically sorted); value is compared only for the codes whose message prints it *)
+   2 = a source map with maps (canonically sorted) and err = [len(Sources); len(Names)]; value is compared only for the codes whose message prints it *)
 Definition maps_ok (c : list section * Z * Z * list Z * list mapping) : bool :=
   let '(secs, st, kind, err, maps) := c in
   match ParseMappings secs with
@@ -75,7 +75,10 @@ Definition maps_ok (c : list section * Z * Z * list Z * list mapping) : bool :=
                            (if (code =? 2) || (code =? 4) || (code =? 6) || (code =? 8) || (code =? 9) || (code =? 10) then v =? v' else true)
     | _ => false
     end
-  | Ok (PMap _ ms) => (st =? 0) && (kind =? 2) && list_eqb mapping_eqb (sort_m ms) (sort_m maps)
+  | Ok (PMap ns nn ms) =>
+    (st =? 0) && (kind =? 2) && list_eqb mapping_eqb (sort_m ms) (sort_m maps) &&
+    (* err carries [len(sm.Sources); len(sm.Names)] of the real result *)
+    match err with [ns'; nn'] => (ns =? ns') && (nn =? nn') | _ => false end
   | x => st =? status_of x
   end.
 Definition check_maps := mismatches maps_ok.
